@@ -198,6 +198,8 @@ class ConcRunner:
                     raise
                 except Exception as e:  # noqa: BLE001
                     rec["result"] = ("e", err_kind(e), repr(e)[:120])
+                    if coop.is_shim_error(e):
+                        self.uncontrollable = f"{type(e).__name__}: {e}"
                 rec["res"] = self.tick()
                 ctrl.yield_point("return", o["op"])
                 self.records.append(rec)
@@ -209,6 +211,8 @@ class ConcRunner:
         kind = scn.get("sched", {}).get("kind", "random")
         if kind == "replay":
             chooser = coop.replay_chooser(scn["sched"]["seq"], coop.random_chooser(rng))
+        elif kind == "pause":
+            chooser = coop.pause_chooser(scn["sched"].get("victim", 0), scn["sched"].get("at", 5), coop.random_chooser(rng))
         elif kind == "pct":
             chooser = coop.pct_chooser(rng, depth=scn["sched"].get("depth", 3))
         else:
@@ -272,13 +276,19 @@ class ConcRunner:
         if mon:
             self._install_line_preemption(ctrl)
         out = {"deadlock": None, "error": None}
+        self.uncontrollable = None
         try:
             ctrl.run([(f"t{ti}", self.thread_body(ti, ops)) for ti, ops in enumerate(scn["threads"])])
         except coop.Deadlock as e:
             out["deadlock"] = e.waits
         except Exception as e:  # noqa: BLE001
             out["error"] = f"{type(e).__name__}: {e}"
+            if coop.is_shim_error(e):
+                self.uncontrollable = out["error"]
         finally:
+            for t_ in ctrl.threads:
+                if t_.exc is not None and coop.is_shim_error(t_.exc):
+                    self.uncontrollable = f"{type(t_.exc).__name__}: {t_.exc}"
             if mon:
                 self._remove_line_preemption()
             coop.set_controller(None)
@@ -317,6 +327,9 @@ class ConcRunner:
             out["final"] = None
             out["error"] = out["error"] or f"{type(e).__name__}: {e}"
         out["logs"] = sum(1 for r in self.handler.records if r.levelno >= logging.ERROR)
+        if self.uncontrollable:
+            # the harness, not the scheduler, failed: this run decides nothing (reported as a broken tie, never as a violation)
+            out["uncontrollable"] = self.uncontrollable
         return out
 
     # ---------------------------------------------------------------- line-level preemption
